@@ -81,7 +81,7 @@ def _case(draw, tier):
             fp_[str(i)] = draw(st.integers(0, 3))
     ops = []
     for _ in range(draw(st.integers(0, 5))):
-        ops.append([draw(st.sampled_from(["add", "remove", "remove", "readd"])), draw(st.integers(0, 7))])
+        ops.append([draw(st.sampled_from(["add", "remove", "remove", "readd", "replace", "replace"])), draw(st.integers(0, 7))])
     return {"atoms": atoms, "prior": prior, "revs": revs, "gpz": gpz, "fix_minus": fm_, "fix_plus": fp_, "ops": ops}
 
 
@@ -335,6 +335,18 @@ def run_case(case, ctx):
                     mdl.remove_conditional(victim[0])
                     current.remove(victim)
                     removed.append(victim)
+                elif op == "replace":
+                    # remove a conditional and add a DIFFERENT one under the same index
+                    if not current:
+                        continue
+                    victim = current[arg % len(current)]
+                    repl = pool_extra[(arg + victim[0]) % len(pool_extra)]
+                    new = (victim[0], repl[1], repl[2])
+                    if fm.cond_text(new[1], new[2]) == fm.cond_text(victim[1], victim[2]):
+                        new = (victim[0], fm.Not(repl[1]), repl[2])
+                    mdl.remove_conditional(victim[0])
+                    mdl.add_conditional(mk_conds([new])[0])
+                    current[current.index(victim)] = new
                 elif op == "readd":
                     if not removed:
                         continue
@@ -398,4 +410,4 @@ def shrink(case):
 def required_strata(tier):
     return ["prior:custom", "prior:zero", "prior:z", "prior:c", "params-exist", "params-do-not-exist",
             "minimality-checked", "zero-prior:c-representation-checked", "model-op:add", "model-op:remove",
-            "model-op:readd"]
+            "model-op:readd", "model-op:replace"]
